@@ -443,6 +443,55 @@ impl Part for RoundsPart {
     }
 }
 
+/// Many consecutive, correctly acknowledged probe rounds: the 8-bit probe number wraps around
+/// (round 256 carries number 0) and every round must still count its Ack as evidence.
+pub struct LongPart;
+impl Part for LongPart {
+    type Case = Case;
+    fn name(&self) -> &'static str {
+        "acked-rounds-across-probe-number-wrap"
+    }
+    fn strategy(&self, _t: Tier) -> BoxedStrategy<Case> {
+        let mut sp = SetupProfile::default();
+        sp.periodic = false;
+        sp.codecs = vec![CodecKind::Fix, CodecKind::Var];
+        (setup(&sp), 1..4u8, 260..330usize, proptest::collection::vec(any::<bool>(), 330))
+            .prop_map(|(setup, members, rounds, direct)| {
+                let mut ops: Vec<Op> = (1..=members)
+                    .map(|a| Op::Data(DataSpec { src: IdSel::Abs(a, 0), inc: IncSel::Abs(0), dst: DstSel::Me, msg: MsgSel::Gossip, members: Some(vec![]), items: vec![], mangle: Mangle::None }))
+                    .collect();
+                ops.push(Op::FireNext); // first ProbeRandomMember
+                for r in 0..rounds {
+                    let ack = Op::Data(DataSpec { src: IdSel::ProbeTarget, inc: IncSel::Rel(0), dst: DstSel::Me, msg: MsgSel::Ack(NoSel::Cur), members: Some(vec![]), items: vec![], mangle: Mangle::None });
+                    if direct[r] || members == 1 {
+                        // Ack before the indirect stage
+                        ops.push(ack);
+                        ops.push(Op::FireNext);
+                    } else {
+                        // indirect stage first, then a ForwardedAck from the asked helper
+                        ops.push(Op::FireNext);
+                        ops.push(Op::Data(DataSpec { src: IdSel::Helper(0), inc: IncSel::Rel(0), dst: DstSel::Me, msg: MsgSel::ForwardedAck(IdSel::ProbeTarget, NoSel::Cur), members: Some(vec![]), items: vec![], mangle: Mangle::None }));
+                    }
+                    ops.push(Op::FireNext); // next ProbeRandomMember
+                }
+                Case { setup, ops }
+            })
+            .boxed()
+    }
+    fn cases(&self, tier: Tier) -> u64 {
+        tier.pick(400, 20_000)
+    }
+    fn exec(&self, c: &Case, out: &mut CaseOut) -> Result<(), Fail> {
+        let mut m = Mon::new(c.setup.codec);
+        run_history(c, &mut m, out)?;
+        // every member is still Alive: no round was lost
+        Ok(())
+    }
+    fn max_shrink_iters(&self) -> u32 {
+        300
+    }
+}
+
 // ---------------------------------------------------------------------------------------
 // A real chain: origin, helper, target (and a bystander) exchanging the relay end to end
 // ---------------------------------------------------------------------------------------
@@ -602,9 +651,10 @@ pub fn run(ctx: &Ctx, report: &mut Report) -> EvidenceMeta {
     let cs = chains();
     ctx.run_enum("relay-chain", cs.len() as u64, |i| cs[i as usize].clone(), exec_chain, report, false);
     ctx.run_part(&RoundsPart, report);
+    ctx.run_part(&LongPart, report);
     EvidenceMeta {
         level: "exploration",
-        rule: "(1) proptest histories of one instance with 1..6 members in which the probe timers are delivered in deadline order and the inputs around them are generated: Ack / ForwardedAck from the target, an asked helper, an unasked member, an unknown identity or a newer generation of the target, with probe number current / previous / next / random, duplicates, arriving before the indirect stage, between the two timers or after the round; membership changes about the target (Suspect, higher incarnation, Down, rename) and events that abort the round (idle, Down about self, change_identity); plus Ping / PingReq / IndirectPing / IndirectAck / ForwardedAck datagrams with generated fields (incl. naming the instance itself) in every connection state. A round ledger built only from observations (Ping destination and number, PingReq destinations, accepted datagrams by the structural classifier) decides whether genuine evidence existed; at the next round: evidence => no suspicion, no evidence and target still active at the same incarnation => Suspect + exactly one timeout; PingReq only without a direct ack, to <= num_indirect distinct active members other than the target with the right fields; every reply/relay preserves (origin, target, number); the instance's private probe state (hook) must agree with the ledger. (2) a real 4-instance chain (origin, helpers, target) run end to end for 4 codecs x probe numbers x each hop lost. Non-trivial: a round with a near-miss input (right sender wrong number, right number wrong sender, duplicate, unasked helper) or an abort; chain runs always."
+        rule: "(1) proptest histories of one instance with 1..6 members in which the probe timers are delivered in deadline order and the inputs around them are generated: Ack / ForwardedAck from the target, an asked helper, an unasked member, an unknown identity or a newer generation of the target, with probe number current / previous / next / random, duplicates, arriving before the indirect stage, between the two timers or after the round; membership changes about the target (Suspect, higher incarnation, Down, rename) and events that abort the round (idle, Down about self, change_identity); plus Ping / PingReq / IndirectPing / IndirectAck / ForwardedAck datagrams with generated fields (incl. naming the instance itself) in every connection state. A round ledger built only from observations (Ping destination and number, PingReq destinations, accepted datagrams by the structural classifier) decides whether genuine evidence existed; at the next round: evidence => no suspicion, no evidence and target still active at the same incarnation => Suspect + exactly one timeout; PingReq only without a direct ack, to <= num_indirect distinct active members other than the target with the right fields; every reply/relay preserves (origin, target, number); the instance's private probe state (hook) must agree with the ledger. (2) 260..330 consecutive acknowledged rounds (direct Ack or ForwardedAck from the asked helper) so that the 8-bit probe number wraps around; (3) a real 4-instance chain (origin, helpers, target) run end to end for 4 codecs x probe numbers x each hop lost. Non-trivial: a round with a near-miss input (right sender wrong number, right number wrong sender, duplicate, unasked helper) or an abort; chain runs always."
             .into(),
         assumptions: vec![
             "probe timers are delivered in deadline order (out-of-order delivery is C13's subject)".into(),
@@ -616,6 +666,7 @@ pub fn run(ctx: &Ctx, report: &mut Report) -> EvidenceMeta {
 pub fn replay(part_name: &str, case: &Value) -> Option<Result<(), Fail>> {
     match part_name {
         "probe-rounds" => Some(replay_with(&RoundsPart, case)),
+        "acked-rounds-across-probe-number-wrap" => Some(replay_with(&LongPart, case)),
         "relay-chain" => Some((|| {
             let c: Chain = serde_json::from_value(case.clone()).map_err(|e| Fail::new("replay:bad-file", e.to_string()))?;
             exec_chain(&c, &mut CaseOut::default())
